@@ -153,6 +153,49 @@ fn answer(a: &[&str]) -> String {
             let seq: dicom_core::value::PixelFragmentSequence<Vec<u8>> = vec![f].into();
             format!("{} {}", seq.fragments().len(), seq.fragments().iter().map(|x| x.len()).sum::<usize>())
         }
+        // assoc_ids <n> -> "IDS id0 id1 ..." : presentation context ids in the A-ASSOCIATE-RQ that a requestor with n proposed
+        // contexts really sends (captured by a listening socket on the loopback interface), or "REFUSED <error>"
+        "assoc_ids" => {
+            use dicom_ul::association::client::ClientAssociationOptions;
+            use dicom_ul::pdu::{read_pdu, write_pdu, Pdu, AssociationRJ, AssociationRJResult, AssociationRJServiceUserReason, AssociationRJSource};
+            use std::io::Read;
+            let n: usize = a[1].parse().unwrap();
+            let listener = std::net::TcpListener::bind("127.0.0.1:0").unwrap();
+            let addr = listener.local_addr().unwrap();
+            let server = std::thread::spawn(move || -> String {
+                listener.set_nonblocking(false).unwrap();
+                let (mut sock, _) = match listener.accept() { Ok(x) => x, Err(e) => return format!("NOACCEPT {}", e) };
+                sock.set_read_timeout(Some(std::time::Duration::from_secs(5))).ok();
+                let mut buf: Vec<u8> = Vec::new();
+                let mut chunk = [0u8; 4096];
+                loop {
+                    let mut cur = &buf[..];
+                    if let Ok(Some(pdu)) = read_pdu(&mut cur, 16_378, false) {
+                        let out = match pdu {
+                            Pdu::AssociationRQ(rq) => format!("IDS {}", rq.presentation_contexts.iter().map(|p| p.id.to_string()).collect::<Vec<_>>().join(" ")),
+                            other => format!("OTHER {}", other.short_description()),
+                        };
+                        let _ = write_pdu(&mut sock, &Pdu::AssociationRJ(AssociationRJ { result: AssociationRJResult::Permanent,
+                            source: AssociationRJSource::ServiceUser(AssociationRJServiceUserReason::NoReasonGiven) }));
+                        return out;
+                    }
+                    match sock.read(&mut chunk) { Ok(0) => return "CLOSED".into(), Ok(k) => buf.extend_from_slice(&chunk[..k]), Err(e) => return format!("READERR {}", e) }
+                }
+            });
+            let mut opts = ClientAssociationOptions::new();
+            for k in 0..n {
+                opts = opts.with_presentation_context(format!("1.2.3.{}", k), vec!["1.2.840.10008.1.2".to_string()]);
+            }
+            let res = opts.connection_timeout(std::time::Duration::from_secs(5)).establish(addr);
+            let client = match res { Ok(_) => "ESTABLISHED".to_string(), Err(e) => format!("{}", e).replace(' ', "_") };
+            if client.to_lowercase().contains("abstract") || client.to_lowercase().contains("too_many") {
+                // the requestor refused locally: unblock the listener
+                let _ = std::net::TcpStream::connect(addr);
+                let _ = server.join();
+                return format!("REFUSED {}", client);
+            }
+            match server.join() { Ok(s) if s.starts_with("IDS") => s, Ok(s) => format!("REFUSED {} / {}", client, s), Err(_) => "PANIC".into() }
+        }
         // ts_dump -> one line per registered transfer syntax
         "ts_dump" => {
             use dicom_encoding::transfer_syntax::TransferSyntaxIndex;
